@@ -17,7 +17,7 @@ Definition agree_series (m : option (list Q)) (impl : option (list Q)) : bool :=
   match m, impl with None, None => true | Some a, Some b => qlist_eqb a b | _, _ => false end.
 
 Definition run_rw (L S : Z) (dobs dhist dfut : list Z) (obs hist fut : list Q) : option (list Q) :=
-  flatten (driver_rw Q L S dobs dhist dfut obs hist fut probe_w).
+  flatten (driver_rw_skip Q L S dobs dhist dfut obs hist fut probe_w).
 Definition run_dc (L S : Z) (dobs dhist dfut : list Z) (obs hist fut : list Q) : option (list Q) :=
   flatten (driver_dc Q L S dobs dhist dfut obs hist fut probe_w_dc).
 
@@ -27,4 +27,4 @@ Definition w_years (Ly Sy : Z) (o h f : list (Q * Z)) : list Q :=
                    (fun m => probe_w (map fst o) (map fst h) (NP.select (map fst f) m))) with
   | Some l => l | None => [] end.
 Definition run_rw_years (L S Ly Sy : Z) (dobs dhist dfut : list Z) (obs hist fut : list (Q * Z)) : option (list Q) :=
-  flatten (driver_rw Q L S dobs dhist dfut obs hist fut (w_years Ly Sy)).
+  flatten (driver_rw_skip Q L S dobs dhist dfut obs hist fut (w_years Ly Sy)).
